@@ -39,6 +39,14 @@ class UnitResult:
         return self.__dict__
 
 
+def _resolved(c, vars):
+    import copy
+    c2 = copy.copy(c)
+    c2.result = c.result(vars)
+    c2.locals = {k: (sh(vars) if callable(sh) and not isinstance(sh, V.Shape) else sh) for k, sh in c.locals.items()}
+    return c2
+
+
 def model_value(model, v: Val, depth=0):
     """Concrete python rendering of a symbolic value under a model (for replay)."""
     s = v.shape
@@ -113,6 +121,10 @@ def verify_unit(reg, idx: SourceIndex, c: Contract, timeout_ms=None, seed=0, dis
             else:
                 vars[p] = V.fresh(sh, p)
         ctx.param_vals = dict(vars)
+        # shapes that refer to parameter values (views of a parameter list) are given as callables
+        if callable(c.result) and not isinstance(c.result, V.Shape):
+            c = _resolved(c, vars)
+            eng.unit = c
         st = State(vars)
         # defaults for parameters the contract does not mention
         bound = eng.bind_args(info.node, [], dict(vars), st=st)
